@@ -17,15 +17,17 @@ PRE = "Open Scope N_scope."
 STRATS = ["naive", "semi", "par", "prov"]
 OPS = {">": "Gt", "<": "Lt", ">=": "Ge", "<=": "Le", "=": "Eq", "!=": "Ne"}
 
-PROP_RULE = ("a case is one Datalog program (dictionary, facts, rules) run under all four strategies of the real "
-             "Reasoner, each on a fresh store, plus a second run on the resulting store; exhaustive scope: every "
-             "canonical safe rule with <= 2 premises and one conclusion over subject/object terms {a,b,X0,X1,X2}, "
-             "predicate p or a variable, on a fixed family of fact sets over {a,b}x{p}x{a,b}, plus every ordered pair "
-             "of rules from the stated reduced pool; random scope: 1-4 rules with 1-4 premises, constants and repeated "
-             "variables in every position, variable predicates, 1-2 conclusions, filters, 3-6 constants, 3 predicates, "
-             "0-15 facts, rule and fact order shuffled. A case is non-trivial when the Spec's least model contains at "
-             "least one derived fact (a rule fired); distinct by the rendered program and facts. The join stream "
-             "counts a case as non-trivial when the join returns at least one row.")
+PROP_RULE = ("a case is one Datalog program (dictionary, facts, rules) run under all four strategies of the real Reasoner, each on "
+             "a fresh store, plus a second run on the resulting store; observables: stored facts, returned new facts, second-run "
+             "output (sets). Exhaustive scope A (complete): every canonical safe rule with <= 2 premises and one conclusion over "
+             "subject/object terms {a,b,X0,X1,X2} and the constant predicate p, on fixed fact sets over {a,b}x{p}x{a,b}; scope B "
+             "(sampled): the same with a variable in predicate position; scope C: ordered pairs of rules from a reduced pool. Random "
+             "scope: 1-4 rules with 1-4 premises, constants and repeated variables in every position, variable predicates, 1-2 "
+             "conclusions, numeric / variable filters, 3-6 constants, 3 predicates, 0-15 facts, half of the programs re-run with rule "
+             "and fact order shuffled; a negation stream (one stratum, oracle = stratified Spec) and a malformed stream (unsafe "
+             "negation must be rejected). A program case is non-trivial when the Spec derives at least one fact beyond the input "
+             "facts (some rule fired); distinct by the rendered dictionary, rules and fact set. A join-stream case (one call of "
+             "perform_hash_join_for_rules on explicit rows) is non-trivial when the join returns at least one row.")
 
 
 # ---- rendering for Coq ---------------------------------------------------------------------------
@@ -88,6 +90,26 @@ def known_par(case):
 
 def known_neg(case):
     return any(len(r.get("neg", [])) > 0 for r in case["rules"])
+
+
+def known_synth(case):
+    """C05-synthetic-var-capture: a rule variable is named like one of the join's synthetic variables.  Variable names
+    are abstract numbers in the Coq model (keys KV / KS / KO are distinct constructors), so this class exists only here."""
+    return any(str(n).startswith(("__const_subj_", "__const_obj_")) for n in (case.get("varnames") or {}).values())
+
+
+def term_compat(t, u):
+    return not (t[0] == "c" and u[0] == "c") or t[1] == u[1]
+
+
+def atom_compat(a, b):
+    return all(term_compat(t, u) for t, u in zip(a, b))
+
+
+def known_neg_feed(case):
+    return any(len(r1.get("neg", [])) > 0 and any(atom_compat(c, a) for c in r1["concl"] for r2 in case["rules"]
+                                                   for a in r2["prem"] + r2.get("neg", []))
+               for r1 in case["rules"])
 
 
 def atom_vars(a):
@@ -153,19 +175,25 @@ def random_program(rng, profile="general"):
     rules = []
     for _ in range(rng.choice([1, 1, 2, 2, 2, 3, 4])):
         npr = rng.choice([1, 2, 2]) if par else rng.choice([1, 1, 2, 2, 2, 3, 3, 4])
+        has_neg = negation and rng.random() < 0.6
         nv = rng.choice([1, 2, 2, 3, 3, 4])
         vs = list(range(nv))
         prem = []
         for k in range(npr):
             def so():
                 return ["v", rng.choice(vs)] if rng.random() < 0.85 else ["c", so_const()]
-            p = ["c", rng.choice(PR[:2] if rng.random() < 0.85 else PR)] if (par or rng.random() < 0.82) else ["v", rng.choice(vs + [nv])]
+            if negation:      # premises over p, q only, so that conclusions over r feed nothing (outside known_C05_neg_feed)
+                p = ["c", rng.choice(PR[:2])] if rng.random() < 0.93 else ["v", rng.choice(vs + [nv])]
+            else:
+                p = ["c", rng.choice(PR[:2] if rng.random() < 0.85 else PR)] if (par or rng.random() < 0.82) else ["v", rng.choice(vs + [nv])]
             prem.append([so(), p, so()])
         pv = sorted(set(v for a in prem for v in atom_vars(a)))
 
         def ct(pred=False):
-            if pv and rng.random() < ((0.0 if par else 0.25) if pred else 0.8):
+            if pv and rng.random() < ((0.0 if (par or negation) else 0.25) if pred else 0.8):
                 return ["v", rng.choice(pv)]
+            if pred and negation:
+                return ["c", PR[2] if (has_neg and rng.random() < 0.9) else rng.choice(PR[:2])]
             if pred:
                 return ["c", rng.choice(PR[:2] if rng.random() < 0.7 else PR)]
             return ["c", so_const()]
@@ -179,7 +207,7 @@ def random_program(rng, profile="general"):
                 else:
                     filt.append({"x": rng.choice(pv), "op": rng.choice(list(OPS)), "num": rng.choice([0, 1, 2, 3, 5, 8, -1])})
         neg = []
-        if negation and pv and rng.random() < 0.6:
+        if has_neg and pv:
             def nt(pred=False):
                 if rng.random() < 0.7:
                     return ["v", rng.choice(pv)]
@@ -319,7 +347,7 @@ def evaluate_programs(ctx, binpath, cases, stream, pairs=None):
     st = {"cases": len(cases), "impl_model_mismatches": 0, "spec_violations": 0, "in_known_par": 0, "in_known_neg": 0,
           "known_par_reproduced": 0, "known_neg_reproduced": 0, "derived_facts": 0, "empty_derivation": 0,
           "rules": 0, "premises": 0, "var_predicate_premises": 0, "filters": 0, "two_conclusions": 0, "facts": 0,
-          "rounds_gt1": 0}
+          "negated_atoms": 0, "unstratified_skipped": 0, "in_known_neg_feed": 0, "known_neg_feed_reproduced": 0}
     results = []
     for c, im, mo in zip(cases, impl, model):
         ctx.count()
@@ -330,14 +358,33 @@ def evaluate_programs(ctx, binpath, cases, stream, pairs=None):
         m = {s: model_triple(mo[i]) for i, s in enumerate(STRATS)}
         spec = None if mo[4] is None else fset(mo[4][1])
         kpar_m, kneg_m, safe_m = mo[5]
+        strat, kfeed_m, accepted_m = mo[6]
         kpar, kneg, safe = known_par(c), known_neg(c), all(safe_rule(r) for r in c["rules"])
-        if (kpar, kneg, safe) != (kpar_m, kneg_m, safe_m):
+        kfeed = known_neg_feed(c)
+        if not accepted_m:
+            # unsafe negation: Reasoner::try_add_rule must reject the program (shared/src/rule.rs check_rule_safety)
+            st["unsafe_negation"] = st.get("unsafe_negation", 0) + 1
+            rej = im is not None and all(isinstance(im.get(s), dict) and "rejected" in im[s] for s in STRATS)
+            if not rej:
+                ctx.broken("correspondence", stream, "a rule with an unsafe negated atom was not rejected by try_add_rule (model: check_rule_safety = false)",
+                           {"case": c, "impl": im})
+            continue
+        if (kpar, kneg, safe, kfeed) != (kpar_m, kneg_m, safe_m, kfeed_m):
             ctx.broken("correspondence", stream, "class predicates of checks/c05.py and Classes.v disagree", c)
             continue
         if spec is None or any(m[s] is None for s in STRATS):
             ctx.broken("correspondence", stream, "model or Spec ran out of fuel", c)
             continue
         F = fset(c["facts"])
+        stratified = True
+        if kneg:
+            if strat is None:
+                ctx.broken("correspondence", stream, "stratified Spec ran out of fuel", c)
+                continue
+            _m0, s1, okflag = strat[1]
+            spec = fset(s1)            # the Spec of a program with negated atoms is the stratified model
+            stratified = okflag
+            st["unstratified_skipped"] += not okflag
         derived = [f for f in spec if f not in F]
         st["rules"] += len(c["rules"])
         st["facts"] += len(F)
@@ -345,6 +392,7 @@ def evaluate_programs(ctx, binpath, cases, stream, pairs=None):
             st["premises"] += len(r["prem"])
             st["var_predicate_premises"] += sum(1 for a in r["prem"] if a[1][0] == "v")
             st["filters"] += len(r.get("filt", []))
+            st["negated_atoms"] += len(r.get("neg", []))
             st["two_conclusions"] += len(r["concl"]) >= 2
         st["derived_facts"] += len(derived)
         st["empty_derivation"] += not derived
@@ -365,28 +413,37 @@ def evaluate_programs(ctx, binpath, cases, stream, pairs=None):
             results[-1][s] = i
             in_par = s == "par" and kpar
             in_neg = kneg and s != "prov"
-            if kneg:
-                # Spec of a program with negated atoms is the stratified model (stretch): only correspondence is checked
-                want = None
+            in_feed = kneg and s == "prov" and kfeed
+            in_synth = known_synth(c) and s != "par"
+            if not stratified:
+                want = None     # the two-level split is not a stratification of this program: no specified answer
             else:
                 want = {"all": spec, "new": derived, "again": []}
             got = {k: i[k] for k in ("all", "new", "again")}
             ok_spec = want is None or (got == want and not i["dups"] and i["all2"] == i["all"])
-            ok_model = got == m[s]
+            ok_model = got == m[s] or (in_synth and is_known(ctx, "C05-synthetic-var-capture"))
             if not ok_model:
                 st["impl_model_mismatches"] += 1
             if in_par:
                 st["in_known_par"] += 1
             if in_neg:
                 st["in_known_neg"] += 1
+            if in_feed:
+                st["in_known_neg_feed"] += 1
             if not ok_spec:
-                if in_par and is_known(ctx, "C05-parallel-shapes"):
+                if in_synth and is_known(ctx, "C05-synthetic-var-capture"):
+                    st["known_synth_reproduced"] = st.get("known_synth_reproduced", 0) + 1
+                elif in_neg and is_known(ctx, "C05-negation-ignored"):
+                    st["known_neg_reproduced"] += 1
+                elif in_feed and is_known(ctx, "C05-negation-single-pass"):
+                    st["known_neg_feed_reproduced"] += 1
+                elif in_par and is_known(ctx, "C05-parallel-shapes"):
                     st["known_par_reproduced"] += 1
                 else:
                     missing = [f for f in want["all"] if f not in got["all"]]
                     extra = [f for f in got["all"] if f not in want["all"]]
                     ctx.violation({"case": c, "strategy": s},
-                                  {"what": "strategy '%s' does not compute the least model" % s,
+                                  {"what": "strategy '%s' does not compute the %s" % (s, "stratified model" if kneg else "least model"),
                                    "missing": missing[:10], "unsound": extra[:10], "second_run": got["again"][:10],
                                    "duplicates_in_returned": i["dups"], "least_model_size": len(spec)})
                     st["spec_violations"] += 1
@@ -402,6 +459,8 @@ def evaluate_programs(ctx, binpath, cases, stream, pairs=None):
                 for s in STRATS:
                     if s in ra and s in rb and (ra[s]["all"] != rb[s]["all"] or ra[s]["new"] != rb[s]["new"]):
                         if s == "par" and known_par(cases[a]) and is_known(ctx, "C05-parallel-shapes"):
+                            continue
+                        if known_neg(cases[a]) and (s != "prov" or known_neg_feed(cases[a])):
                             continue
                         ctx.violation({"case": cases[a], "reordered": cases[b], "strategy": s},
                                       {"what": "result depends on rule/fact order", "first": ra[s], "second": rb[s]})
@@ -453,6 +512,8 @@ def replay_known(ctx, binpath):
         if not isinstance(w, dict) or "rules" not in w:
             continue
         case = {"kind": "program", "dict": w["dict"], "facts": w["facts"], "rules": w["rules"]}
+        if "varnames" in w:
+            case["varnames"] = w["varnames"]
         im = ctx.run_impl(binpath, [case])[0]
         mo = ctx.run_model(SUB, REQ, [c_run_all(case)], preamble=PRE)[0]
         ctx.count()
@@ -460,7 +521,10 @@ def replay_known(ctx, binpath):
             ctx.broken("correspondence", "known-witness", "model evaluation failed on the witness of %s" % k["id"], case)
             continue
         s = w.get("strategy", "par")
-        want = fset(w["expected_all"]) if "expected_all" in w else fset(mo[4][1])
+        if known_neg(case):
+            want = fset(mo[6][0][1][1])
+        else:
+            want = fset(mo[4][1])
         got = impl_triple(im.get(s)) if im else None
         if got is None or got["all"] != want:
             missing = [] if got is None else [f for f in want if f not in got["all"]]
@@ -504,6 +568,19 @@ def run(ctx):
             rnd.append(shuffled(ctx.rng, c))
     ctx.sample(rnd[0])
     evaluate_programs(ctx, binpath, rnd, "random", pairs)
+    # programs with one stratum of negation (oracle: the stratified Spec)
+    nn = 1500 if ctx.thorough else 150
+    neg = [random_program(ctx.rng, "neg") for _ in range(nn)]
+    ctx.sample(next((c for c in neg if known_neg(c)), neg[0]))
+    evaluate_programs(ctx, binpath, neg, "negation")
+    # malformed stream: a negated atom with a variable that no premise binds must be rejected
+    bad = []
+    for c in neg[: (200 if ctx.thorough else 40)]:
+        c = json.loads(json.dumps(c))
+        r = ctx.rng.choice(c["rules"])
+        r["neg"] = r.get("neg", []) + [[["v", 9], ["c", len(c["dict"]) - 3], ["v", 0]]]
+        bad.append(c)
+    evaluate_programs(ctx, binpath, bad, "malformed_unsafe_negation")
     finish(ctx)
 
 
